@@ -9,7 +9,7 @@ use serde_json::{json, Value};
 pub static DEF: PropDef = PropDef {
     id: "C01",
     level: "exploration",
-    total: |t| t.pick(64, 3200),
+    total: |t| t.pick(384, 22400),
     run,
     rule: "random schedules over {write A/B (1, MSS-1, MSS, MSS+1, 3000, 65535, 70000, 200000 bytes; in SYN-SENT, SYN-RECEIVED and ESTABLISHED, incl. the passive side before its SYN-ACK is seen), segments()->network, receive() eager or withheld, deliver any in-flight segment, drop, duplicate, advance_time 1/50/101 ms}, MTU in {100,101,150,576,1500,9000,65535}, active/passive and simultaneous open, ISNs uniform and near 0/2^31/2^32; prefix safety checked after every step, then a fair loss-free phase with a round bound. Non-trivial = >=1 retransmitted data segment AND >=1 out-of-order arrival AND >=1 byte delivered each way; distinct by decision-trace hash.",
     assumptions: &[
